@@ -128,8 +128,16 @@ def script_of(case):
     code, px, py, po, mip = case
     # px == 2: a primal answer that violates the row x0 + x1 <= 5 (used to observe whether the automatic solution check ran)
     # px == 3: a complete feasible answer plus two alternative solutions (written to <sol:stub>N.sol)
-    return {'code': code, 'msg': 'scripted result', 'altsols': 2 if px == 3 else 0, 'x': (X_VIOL if px == 2 else X_SPEC) if px else 'none', 'y': Y_SPEC if py else 'none',
+    # px == 4: IIS requested (alg:iisfind=1); the scripted IIS run reports the status code+1000 -> folded to IIS_CODE(code)
+    return {'code': code, 'msg': 'scripted result', 'altsols': 2 if px == 3 else 0, 'iis_code': iis_code(code) if px == 4 else 'none', 'iis': 'ramp' if px == 4 else 'none', 'x': (X_VIOL if px == 2 else X_SPEC) if px else 'none', 'y': Y_SPEC if py else 'none',
             'obj': OBJ_SPEC if po else 'none', 'ismip': mip, 'rays': 1}
+
+
+def iis_code(code):
+    """the status the scripted IIS run reports: another code of the same documented range"""
+    for lo, hi in STATEMENT_RANGES:
+        if lo <= code <= hi: return code + 1 if code < hi else code - 1
+    return code
 
 
 def observe(binary, workdir, nl, case):
@@ -139,8 +147,11 @@ def observe(binary, workdir, nl, case):
         for f in os.listdir(workdir) if os.path.isdir(workdir) else []:
             if f.startswith('alt'): os.remove(os.path.join(workdir, f))
     r = vdriverlib.run(binary, workdir, nl_text=nl, script=script_of(case),
-                       env_opts={'vdriver_options': 'sol:stub=%s' % os.path.join(workdir, 'alt')} if alt else None)
+                       env_opts={'vdriver_options': 'sol:stub=%s' % os.path.join(workdir, 'alt')} if alt else
+                       {'vdriver_options': 'alg:iisfind=1'} if case[1] == 4 else None)
+    if case[1] == 4: o_calls = [c.get('op') for c in (r.get('dump') or {}).get('calls', [])]
     o = {'rc': r['rc'], 'sol': None, 'err': r['err'][-300:]}
+    if case[1] == 4: o['iis_run'] = 'ComputeIIS' in o_calls
     if alt:
         codes = []
         for k in (1, 2):
@@ -167,8 +178,12 @@ def judge(orc, case, o):
     f = []
     if o['rc'] != 0 or o['sol'] is not True:
         return [('driver failed', {'rc': o['rc'], 'sol': o['sol'], 'err': o.get('err'), 'parse': o.get('parse_error')})]
-    if o['code'] != code:
-        f.append(('.sol solve code differs from reported code', {'sol_code': o['code']}))
+    want_code = code
+    if px == 4 and o.get('iis_run'): want_code = iis_code(code)       # the IIS run reported a new status: that is the code to write
+    if o['code'] != want_code:
+        f.append(('.sol solve code differs from reported code', {'sol_code': o['code'], 'reported': want_code}))
+    if px == 4:
+        code = want_code
     cand = orc.candidate(code)
     has = o['objtxt'] is not None or o['objword']
     if cand is True and po:
@@ -320,6 +335,7 @@ def _main(chk, tier, binary):
              for px in (1, 0) for py in (1, 0) for po in (1, 0)]
     cases += [(code, 2, 1, 1, mip) for mip in mips for code in range(LO, HI + 1)]
     cases += [(code, 3, 1, 1, mip) for mip in mips for code in range(LO, HI + 1)]
+    cases += [(code, 4, 1, 1, mip) for mip in mips for code in range(LO, HI + 1)]
     nw = vcheck.NCPU
     jobs = [(binary, i, nl, cases[i::nw], ranges) for i in range(nw)]
     with multiprocessing.get_context('fork').Pool(nw) as pool:
@@ -424,13 +440,13 @@ def _main(chk, tier, binary):
 
     chk.cov['evaluations'] = chk.cov.get('driver_runs', 0) + chk.cov.get('predicate_evaluations', 0) + chk.cov.get('bang_runs', 0)
     vcheck.finalize_classes(chk)
-    chk.set('rule', 'complete enumeration: every status code in [%d, %d] x {primal, dual, objective value present/absent}%s plus, per code, one complete answer whose primal point violates the row (does the automatic solution check treat the code as the infeasible class?) and one answer with two alternative solutions written through sol:stub (their .sol files must carry the reported code); the scripted solver offers rays, so the .unbdd / .dunbdd suffixes show which codes the driver treats as unbounded / infeasible, '
+    chk.set('rule', 'complete enumeration: every status code in [%d, %d] x {primal, dual, objective value present/absent}%s plus, per code, one complete answer whose primal point violates the row (does the automatic solution check treat the code as the infeasible class?) and one answer with two alternative solutions written through sol:stub (their .sol files must carry the reported code) and one answer with alg:iisfind=1 where the scripted IIS run reports a new status (the .sol must carry that one); the scripted solver offers rays, so the .unbdd / .dunbdd suffixes show which codes the driver treats as unbounded / infeasible, '
             'one driver process per case (scripted backend on the real RunBackendApp path, tiny LP with one objective); '
             'the six StdBackend classification predicates called on the same backend class for every code; `-!` once. '
             'Oracle: range table parsed from doc/source/features-guide.rst. A class is (documented class of the code, '
             'presence pattern, what the message / .sol showed) or (predicate, documented class, answer).'
             % (LO, HI, ' x IsMIP {0,1}' if tier == 'thorough' else ' (IsMIP=0, so duals are reported)'))
-    chk.set('bounds', {'codes': [LO, HI], 'presence_patterns': 10, 'ismip': mips, 'predicates': PREDICATES,
+    chk.set('bounds', {'codes': [LO, HI], 'presence_patterns': 11, 'ismip': mips, 'predicates': PREDICATES,
                        'documented_ranges': ['%d-%d %s' % r[:3] for r in ranges]})
     chk.assumptions += [
         'domain: the documented table covers 0..999; codes -200..-1 (sol::NOT_SET, sol::UNKNOWN and everything between) are '
